@@ -280,6 +280,8 @@ type vinput struct {
 	data []byte
 	// planted copies for C01: document key and the byte range of the copy in data
 	plants []vplant
+	// C04: an input to be matched in between repeats of this one (same bytes, a few more at the end)
+	twin []byte
 }
 type vplant struct {
 	doc        vdoc
@@ -300,7 +302,7 @@ func vplantInput(r *vrand, id string, docs []vdoc) vinput {
 		pl = append(pl, vplant{d, s, e})
 		sb.WriteString(voovBlock(r, 1+r.intn(4)))
 	}
-	return vinput{id, sb.Bytes(), pl}
+	return vinput{id: id, data: sb.Bytes(), plants: pl}
 }
 
 func vgenInputs(r *vrand, nExact, nEdit, nScen, nMal int) []vinput {
@@ -506,8 +508,11 @@ func vtinyCorpora(o *vout, r *vrand) int {
 		{"License", "Tiny4", "a.txt", mk(0, 4)}, {"License", "Tiny9", "", mk(2, 9)}, {"", "known", "", mk(1, 6)},
 		{"License", "Tiny1", "x", mk(12, 1)}, {"License", "Tiny12", "v.txt", mk(0, 12)}, {"License", "Empty", "e", ""},
 		{"Header", "Tiny5", "h.txt", mk(7, 5)}, {"License", "Rep", "r", "alpha alpha alpha alpha alpha bravo alpha alpha"},
+		// words that decode to the dictionary's placeholder for unknown ids: q-grams of out-of-vocabulary
+		// input words hash like this document's, though no token id agrees (diff without an Equal part)
+		{"License", "Unk", "u", strings.Repeat("&#85;&#78;&#75;&#78;&#79;&#87;&#78; ", 9)},
 	}
-	ths := []float64{0.8, 0.9, 0.5, 0.67}
+	ths := []float64{0.8, 0.9, 0.5, 0.67, 0}
 	if vthorough() {
 		ths = append(ths, 0.7, 1.0, 0.95, 0.3)
 	}
@@ -531,7 +536,8 @@ func vtinyCorpora(o *vout, r *vrand) int {
 				inputs = append(inputs, strings.Join(ws[:len(ws)-1], " "), strings.Join(ws[1:], " "), "zyxqv "+strings.Join(ws[:len(ws)-1], " "))
 			}
 		}
-		inputs = append(inputs, docs[0].text+" "+docs[6].text, docs[1].text+"\n"+docs[0].text, "", "zyxqv", mk(0, 13))
+		inputs = append(inputs, docs[0].text+" "+docs[6].text, docs[1].text+"\n"+docs[0].text, "", "zyxqv", mk(0, 13),
+			"qq ww ee rr tt yy uu ii oo pp", "alpha bravo qq ww ee rr tt yy uu", "Copyright 2020 x\nqq ww ee rr tt")
 		for k := 0; k < 10; k++ {
 			rr := r.fork(uint64(9000 + ti*100 + k))
 			var ws []string
